@@ -625,7 +625,7 @@ def c18(pid, tier, replay):
                 upkeep.gen_trees(tpl, files, vlib.seed(), "quick")[:3]
     else:
         trees = upkeep.gen_trees(tpl, files, vlib.seed(), tier)
-    crash_points = 4 if tier == "quick" else 400
+    crash_points = 8 if tier == "quick" else 400
     rng = random.Random(vlib.seed())
     lines_all = []
     def one(i_t):
@@ -675,13 +675,18 @@ def watcher_scenarios(seed, tier):
     add([{"op": "pause"}, W(dirs[0] + "a.toml"), W(dirs[1] + "b.toml"), {"op": "cancel"}])
     add([{"op": "cancel"}])
     add([W(dirs[1] + "nested/a.toml"), W(dirs[1] + "b.toml")])
+    T = lambda f: {"op": "trunc", "file": f}
+    add([T(dirs[3] + "a.toml")])                                       # a modification that leaves the file empty
+    add([W(dirs[0] + "b.toml"), T(dirs[2] + "c.toml"), W(dirs[2] + "notes.txt"), T(dirs[0] + "notes.txt"), W(dirs[2] + "c.toml")])
     n = 25 if tier == "quick" else 400
     for _ in range(n):
         ops = []
         paused = False
         for _ in range(rng.randrange(1, 25)):
             r = rng.random()
-            if r < 0.55:
+            if r < 0.08:
+                ops.append(T(rng.choice(dirs) + rng.choice(toml + other)))
+            elif r < 0.55:
                 ops.append(W(rng.choice(dirs) + rng.choice(toml)))
             elif r < 0.8:
                 ops.append(W(rng.choice(dirs) + rng.choice(other)))
@@ -838,7 +843,19 @@ def c17(pid, tier, replay):
         groups = [[{"cfg": c["cfg"], "colors": c["colors"], "layout": c["layout"], "walks": [steps]}]]
     else:
         d = led_jobs(scr, out, tier)
-        groups = led_batches(d["cfg"], d["walks"], 14)
+        groups = led_batches(d["cfg"], d["walks"], 13)
+        # far transposition (beyond the bounded model): every key goes out of range, highlights keep following
+        far = []
+        for down, up in (("KEY_F1", "KEY_F2"), ("KEY_F2", "KEY_F1"), ("KEY_F3", "KEY_F4")):
+            w = [{"ev": "press", "k": "KEY_S"}, {"ev": "midiin", "msg": [144, 62, 90]}]
+            for _ in range(22 if "F3" not in down else 120):      # beyond where an 8-bit intermediate wraps back into 0-127
+                w += [{"ev": "press", "k": down}, {"ev": "release", "k": down}]
+            w += [{"ev": "release", "k": "KEY_S"}, {"ev": "press", "k": "KEY_D"}]
+            for _ in range(44 if "F3" not in down else 240):
+                w += [{"ev": "press", "k": up}, {"ev": "release", "k": up}]
+            w += [{"ev": "release", "k": "KEY_D"}, {"ev": "disconnect"}]
+            far.append(w)
+        groups.append([{"cfg": d["cfg"], "colors": LED_COLORS, "layout": LED_LAYOUTS[0], "walks": far}])
     def one(g):
         t, _ = run_led(scr, g)
         return t, vlib.validate_trace(scr, "LedTrace", t, xmx="3g")
@@ -957,7 +974,25 @@ def c16(pid, tier, replay):
     with open(bp, "w") as f:
         json.dump(iso_batches, f)
     t2 = scr.fresh("isolation") + ".ndjson"
-    run_cmd([scr.build(race=True), "isolation", bp, t2], timeout=1800)
+    ri = subprocess.run([scr.build(race=True), "isolation", bp, t2], stdout=subprocess.PIPE, stderr=subprocess.PIPE, text=True, timeout=1800,
+                        env=dict(os.environ, GORACE="halt_on_error=0 log_path=%s" % racelog))
+    crash_lines = []
+    if ri.returncode != 0:
+        # Go aborts the process on unsynchronised map access ("fatal error: concurrent map writes"): with HIDI frames
+        # on the stack this is the race itself, observed
+        err = ri.stderr
+        if ("fatal error: concurrent map" in err or "DATA RACE" in err) and "gethiox/HIDI/internal/pkg/midi" in err:
+            fr = [l.strip() for l in err.splitlines() if "gethiox/HIDI/internal/pkg" in l and "/internal/verif/" not in l][:6]
+            crash_lines.append({"ev": "race", "frames": fr, "text": err[:1800]})
+            open(t2, "w").close()
+        else:
+            raise Infra("isolation harness failed: " + err[-3000:])
+    seen, uniq = set(), []
+    for r in parse_race_logs(racelog) + crash_lines:
+        key = tuple(r["frames"][:4])
+        if key not in seen:
+            seen.add(key)
+            uniq.append(r)
     with open(t2, "a") as f:
         for r in uniq:
             f.write(json.dumps(r) + "\n")
